@@ -82,6 +82,13 @@ def _plan(draw, big):
     cls = draw(st.sampled_from(["frame", "frame", "frame", "vector", "vector", "geojson", "lod"]))
     ctrl = draw(st.integers(0, 5)) == 0
     plan = {"cls": cls, "ctrl": ctrl, "settings": draw(_settings())}
+    if draw(st.integers(0, 5)) == 0:
+        plan["np_ints"] = draw(st.sampled_from(["uint8", "int8", "int16", "int64", "zerod"]))
+    if cls in ("frame", "geojson") and draw(st.integers(0, 19)) == 0:
+        plan["repeat_rows"] = draw(st.sampled_from([300, 1000]))
+        plan["np_ints"] = draw(st.sampled_from(["uint8", "int8", "uint8", None]))
+    if cls == "frame" and draw(st.integers(0, 9)) == 0:
+        plan["enum_names"] = True
     if cls in ("frame", "geojson"):
         n = draw(gen.nrows(20 if big else 8))
         k = draw(st.integers(0, 10 if big else 6))
@@ -257,9 +264,29 @@ def _check_frame_text(text, data, plan, labels=None):
         raise Violation("total row count stated although no rows are cut")
 
 
+def _np_int(v, how):
+    """a count as the caller might pass it: a narrow NumPy integer scalar or a zero-dimensional array"""
+    if how is None or v is None or isinstance(v, bool) or not isinstance(v, int):
+        return v
+    if how == "zerod":
+        return np.array(v)
+    info = np.iinfo(how)
+    return np.dtype(how).type(v) if info.min <= v <= info.max else v
+
+
 def check(plan, ctx):
-    _apply_settings(plan["settings"])
+    how = plan.get("np_ints")
+    _apply_settings({k: (_np_int(v, how) if k.startswith("PRINT_MAX") or k == "PRINT_TRUNCATE_WIDTH" else v) for k, v in plan["settings"].items()})
     cls, opts = plan["cls"], dict(plan["opts"])
+    if how:
+        ctx.cls("counts_as_numpy_" + how)
+    if plan.get("repeat_rows") and cls in ("frame", "geojson") and plan["frame"]["n"]:
+        # the drawn rows over and over: more rows than a narrow integer type can count
+        m, fp0 = plan["repeat_rows"], plan["frame"]
+        plan = dict(plan, frame={"n": m, "cols": [dict(c, vals=[c["vals"][i % fp0["n"]] for i in range(m)]) for c in fp0["cols"]]})
+        if "geometry" in plan:
+            plan["geometry"] = [plan["geometry"][i % fp0["n"]] for i in range(m)]
+        ctx.cls("frame_of_300_rows_or_more")
     ctx.cls("cls_" + cls, "ctrl" if plan["ctrl"] else "layout_checked")
     ctx.cls(*("setting_" + k for k in plan["settings"]), *("opt_" + k for k, v in plan["opts"].items() if v is not None))
     if cls in ("frame", "geojson"):
@@ -284,8 +311,15 @@ def check(plan, ctx):
             data = di.GeoJSON(dict(items))
             if plan["frame"]["n"] and "geometry" not in data:
                 raise RuntimeError("builder: geometry column missing")
+        if plan.get("enum_names") and plan["frame"]["cols"]:
+            # column names that are members of a str-mixin Enum (str subclasses with their own __str__): a name is
+            # its characters, not its repr
+            import enum
+            Col = enum.Enum("Col", [(f"M{i}", c["name"]) for i, c in enumerate(plan["frame"]["cols"])], type=str)
+            data = type(data)({(Col(k) if any(k == c["name"] for c in plan["frame"]["cols"]) else k): v for k, v in dict.items(data)})
+            ctx.cls("enum_member_column_names")
         before = build.snap_frame(data)
-        text = _render_all(data, opts, cls)
+        text = _render_all(data, {k: _np_int(v, how) for k, v in opts.items()}, cls)
         if build.snap_frame(data) != before:
             raise Violation(f"rendering changed the {cls}")
         labels = None
@@ -306,7 +340,7 @@ def check(plan, ctx):
         v = build.vec(plan["kind"], plan["vals"])
         before = build.snap_array(v)
         buf_opts = {k: v_ for k, v_ in opts.items() if v_ is not None}
-        text = _render_all(v, buf_opts, "vector")
+        text = _render_all(v, {k: _np_int(v_, how) for k, v_ in buf_opts.items()}, "vector")
         if build.snap_array(v) != before:
             raise Violation("rendering changed the vector")
         if not text.rstrip().endswith(str(v.dtype_label)):
